@@ -300,9 +300,14 @@ static void run_pressure(int v, uint64_t interrupts) {
         for (uint64_t n = 0; n < interrupts * 200000 && g_pressure_delivered.load(std::memory_order_relaxed) < interrupts; ++n) {
             if (auto th = g_pw[n & 3].load(std::memory_order_acquire)) {
                 if (g_pw_sleeping[n & 3].load(std::memory_order_acquire)) {   // (about to be) asleep: the interrupt moves it into the stand-by queue
+                    // the library's own coverage counter tells whether the interrupt really moved the thread
+                    // into the other vCPU's stand-by queue (nobody else wakes threads across vCPUs in this phase)
+                    auto before = vh::cov(photon::verif::C_CROSS_VCPU_WAKE);
                     thread_interrupt(th, EINTR);
-                    g_pressure_delivered.fetch_add(1, std::memory_order_acq_rel);
-                    c_pressure_intr.add();
+                    if (vh::cov(photon::verif::C_CROSS_VCPU_WAKE) != before) {
+                        g_pressure_delivered.fetch_add(1, std::memory_order_acq_rel);
+                        c_pressure_intr.add();
+                    }
                 }
             }
             if ((n & 4095) == 4095) { thread_yield(); vh::progress(); }
